@@ -32,7 +32,9 @@ for d in sorted(glob.glob(os.path.join(here, "seeded", "C*_*")), key=key):
         stats["first_caught_nofail"] += 1
     else:
         stats["first_caught_concrete"] += 1
-    if (last or first).startswith("MISSED"):
+    if m.get("obsolete"):
+        last = "check exits 0, rightly: no longer property-breaking (%s)" % m["obsolete"][:120]
+    elif (last or first).startswith("MISSED"):
         stats["last_missed"] += 1
     rows.append("| %s | %s | %s | %s | %s |" % (name, cell(m.get("clause"), 160), cell(m.get("needs"), 220), first, last))
 out = ["# Seeded changes and what the checks reported", "",
